@@ -14,6 +14,7 @@ A property plugin is a module harness/props/Cxx.py defining:
   signature(case, violation) -> str       structural signature for known_findings matching
   classify(case, obs) -> str              label for the distribution table
   nontrivial(case, obs) -> bool
+  skip_compare(case) -> bool              (optional) case lies in the model's declared don't-care zone
   comparable(obs) -> obs                  (optional) the part of the impl observation the model reproduces
   shrink(case) -> iterable of smaller cases     (optional)
   N_QUICK, N_THOROUGH                     case budgets
@@ -341,7 +342,10 @@ def evaluate(mod, cases, runner, want_model=True):
         agree = None
         if m is not None:
             cmpf = getattr(mod, "comparable", lambda o: o)
-            agree = (i[0] == "ok" and m[0] == "ok" and cmpf(i[1]) == m[1])
+            if hasattr(mod, "skip_compare") and i[0] == "ok" and m[0] == "ok" and mod.skip_compare(c):
+                agree = True    # declared don't-care for the model (host leniency outside the modelled grammar)
+            else:
+                agree = (i[0] == "ok" and m[0] == "ok" and cmpf(i[1]) == m[1])
         out.append({"case": c, "impl": i, "model": m, "agree": agree, "violations": viol})
     return out
 
@@ -357,6 +361,7 @@ def main(argv):
     args = ap.parse_args(argv)
     seed = int(os.environ.get("VERIF_SEED", "0") or 0)
     os.environ["PYTHONHASHSEED"] = "0"
+    os.environ.setdefault("PYTHONWARNINGS", "ignore")
     sys.path.insert(0, VERIF + "/harness/props")
     mod = importlib.import_module(args.pid)
     t0 = time.time()
